@@ -313,7 +313,7 @@ theorem distributeReward_dup {L L1 : Ledger} {a : Addr} {p pool samples d : Nat}
     · next L' h1 =>
       simp only [Except.ok.injEq, Prod.mk.injEq] at h
       obtain ⟨_, rfl⟩ := h
-      obtain ⟨acc, rfl, _⟩ := accountAdd_ok h1
+      obtain ⟨acc, vs, rfl, _⟩ := accountAdd_ok h1
       rfl
   · next val hv =>
     split at h
@@ -328,7 +328,7 @@ theorem distributeReward_dup {L L1 : Ledger} {a : Addr} {p pool samples d : Nat}
       · next L' h1 =>
         simp only [Except.ok.injEq, Prod.mk.injEq] at h
         obtain ⟨_, rfl⟩ := h
-        obtain ⟨acc, rfl, _⟩ := accountAdd_ok h1
+        obtain ⟨acc, vs, rfl, _⟩ := accountAdd_ok h1
         rfl
 
 /-- the stubs of one committee are all paid: no guarded addition fails -/
@@ -462,7 +462,7 @@ theorem finishUnstakingStep_dup {L L' : Ledger} {a : Addr} (h : finishUnstakingS
     split at h
     · exact absurd h (by intro h; cases h)
     · next L1 h1 =>
-      obtain ⟨acc, rfl, _⟩ := accountAdd_ok h1
+      obtain ⟨acc, vs, rfl, _⟩ := accountAdd_ok h1
       have key : ∀ L2 : Ledger, L2.validators = L.validators → dupCommittees (valDel L2 a) ≤ dupCommittees L := by
         intro L2 e
         unfold dupCommittees valDel
@@ -537,7 +537,7 @@ theorem distributeReward_cfg {L L1 : Ledger} {a : Addr} {p pool samples d : Nat}
     · next L' h1 =>
       simp only [Except.ok.injEq, Prod.mk.injEq] at h
       obtain ⟨_, rfl⟩ := h
-      obtain ⟨acc, rfl, _⟩ := accountAdd_ok h1
+      obtain ⟨acc, vs, rfl, _⟩ := accountAdd_ok h1
       rfl
   · next val hv =>
     split at h
@@ -552,7 +552,7 @@ theorem distributeReward_cfg {L L1 : Ledger} {a : Addr} {p pool samples d : Nat}
       · next L' h1 =>
         simp only [Except.ok.injEq, Prod.mk.injEq] at h
         obtain ⟨_, rfl⟩ := h
-        obtain ⟨acc, rfl, _⟩ := accountAdd_ok h1
+        obtain ⟨acc, vs, rfl, _⟩ := accountAdd_ok h1
         rfl
 
 theorem distributeStubs_cfg {pool samples : Nat} : ∀ (ps : List (Addr × Nat)) (L : Ledger) (tot : Nat) (r : Nat × Ledger),
